@@ -3,6 +3,8 @@ package props
 import (
 	"context"
 	"fmt"
+	"io"
+	"net/http"
 	"strings"
 	"sync"
 	"time"
@@ -228,6 +230,46 @@ func (c16) presence(sc core.Scenario, r *core.R) {
 	}
 	if wantPresent && (err != nil || val != "X/"+t+".r0") {
 		r.Violate("reverse-affinity", "ws with option: reverse call returned (%q, %v)", val, err)
+	}
+	if tr == "http" && opt {
+		// plain HTTP requests that ask for an upgrade to something that is not a websocket (h2c as sent by
+		// default by some HTTP clients, or a made-up protocol): whatever the server answers, the handler must
+		// not see a reverse client
+		for _, up := range [][2]string{{"Upgrade, HTTP2-Settings", "h2c"}, {"upgrade", "tls/1.3"}, {"keep-alive, Upgrade", "something"}} {
+			t2 := Tok("v")
+			body := fmt.Sprintf(`{"jsonrpc":"2.0","id":1,"method":"S.Rev","params":[%q,1,0]}`, t2)
+			req, _ := http.NewRequest("POST", env.Addr("http"), strings.NewReader(body))
+			req.Header.Set("Content-Type", "application/json")
+			req.Header.Set("Connection", up[0])
+			req.Header.Set("Upgrade", up[1])
+			type res struct {
+				status int
+				body   string
+				err    error
+			}
+			done := make(chan res, 1)
+			go func() {
+				resp, err := (&http.Client{Timeout: 2 * core.Grace}).Do(req)
+				if err != nil {
+					done <- res{err: err}
+					return
+				}
+				b, _ := io.ReadAll(resp.Body)
+				resp.Body.Close()
+				done <- res{resp.StatusCode, string(b), nil}
+			}()
+			var x res
+			select {
+			case x = <-done:
+			case <-time.After(core.Grace):
+				x = res{err: fmt.Errorf("no reply within %v", core.Grace)}
+			}
+			r.Obs("presence_cases", 1)
+			entered := env.Svc.Enters(t2) > 0
+			if entered && !strings.Contains(x.body, "NOREV") {
+				r.Violate("reverse-presence", "HTTP POST with Connection: %q, Upgrade: %q: the handler ran and found a reverse client (reply status %d body %q err %v; handler note %q)", up[0], up[1], x.status, core.Trunc(x.body, 120), x.err, env.Svc.Get(t2).Note)
+			}
+		}
 	}
 	r.Key(fmt.Sprintf("presence %s opt=%v", tr, opt), true)
 	r.Obs("presence_cases", 1)
